@@ -383,8 +383,8 @@ def features_body(ctx):
 
 
 def run(ctx):
-    hyp_run(ctx, 'c19.population', POP_CASE, pop_body(ctx), ctx.pick(600, 6000))
-    hyp_run(ctx, 'c19.features', FEATURES, features_body(ctx), ctx.pick(2500, 25000))
+    hyp_run(ctx, 'c19.population', POP_CASE, pop_body(ctx), ctx.pick(600, 20000), frac=0.5)
+    hyp_run(ctx, 'c19.features', FEATURES, features_body(ctx), ctx.pick(2500, 80000))
 
 
 def replay(ctx, check, case):
